@@ -142,6 +142,16 @@ STRUCT = {
         ['self.s = 1 if self.a.get() else 0', 'self.q.prepare(self.s)'],
         ['self.q.prepare(self.a.get() if self.b.get() == 1 else self.k)'],
         ['t = self.b.get() if self.a.get() > 1 else self.s', 'self.s = t', 'self.q.prepare(t)'],
+        # a ternary as an OPERAND of an arithmetic / comparison / boolean operator, of another ternary and of an if condition
+        ['t = 1 + (self.a.get() if self.b.get() == 1 else 0)', 'self.s = t & 3', 'self.q.prepare(t)'],
+        ['t = (self.a.get() if self.b.get() == 1 else 0) + 1', 'self.q.prepare(t)'],
+        ['if ((self.a.get() if self.a.get() else self.b.get()) > 1):', '    self.s = 2', 'else:', '    self.s = 0', 'self.q.prepare(self.s)'],
+        ['t = (1 if self.a.get() else 2) * (2 if self.b.get() else 1)', 'self.q.prepare(t)'],
+        ['t = 3 - (self.a.get() if self.b.get() > 1 else 1)', 'self.s = t', 'self.q.prepare(self.s)'],
+        ['t = 1 if (self.a.get() if self.b.get() else 0) else 2', 'self.q.prepare(t)'],
+        ['t = (self.s if self.a.get() == 0 else self.b.get()) == 1', 'self.s = self.a.get()', 'self.q.prepare(t)'],
+        ['t = 4 | (self.a.get() if self.b.get() else self.s) & 1', 'self.s = self.b.get()', 'self.q.prepare(t)'],
+        ['if (self.a.get() == 1 and (self.b.get() if self.s else 1) > 1):', '    self.s = 0', 'else:', '    self.s = 1', 'self.q.prepare(self.s)'],
     ],
     'locals': [
         ['t = self.a.get() + self.b.get()', 'u = t * 2', 'self.q.prepare(u + self.s)', 'self.s = t'],
